@@ -33,7 +33,7 @@ ASSUMPTIONS = [
 ]
 
 FEAT = gen.Feat(inherit=True, items=True, uncached=True, objrefs=True, shadow=False, max_top=3, max_child=2,
-                max_cells=3, max_rank=4, depth=2, tick=False, partial=True, item_reads_cells=True)
+                max_cells=3, max_rank=4, depth=2, tick=False, partial=True, item_reads_refs=True)
 
 CACHE_OPS = {"clear", "clear_all_space_values", "del_item", "clear_items"}
 
@@ -73,6 +73,11 @@ def histories(draw):
             continue
         if k == 6 and draw(st.integers(0, 11)) == 0:
             for op in handled_failure_scenario(draw, G):
+                if op[0] == "eval" or gen.apply_edit_to_picture(G, op):
+                    ops.append(op)
+            continue
+        if k == 7 and draw(st.integers(0, 3)) == 0:
+            for op in instance_reference_scenario(draw, G):
                 if op[0] == "eval" or gen.apply_edit_to_picture(G, op):
                     ops.append(op)
             continue
@@ -153,6 +158,29 @@ def aimed_scenario(draw, G):
         out.append(["set_cells_formula", p, name, gen.gen_cells_def(draw, G, sp, name, FEAT, params=cdef.params)])
     else:
         out.append(["set_cached", p, name, False])
+    return out
+
+
+def instance_reference_scenario(draw, G):
+    """an instance whose parameter formula read a reference exists already; a cells elsewhere reads the reference
+    that the formula returned off that instance; then the reference the formula read changes"""
+    if "Qi" in G.spaces or "Qd" in G.spaces:
+        return []
+    mk = lambda name, params, expr: {"name": name, "params": params, "expr": expr, "cached": True, "allow_none": None,
+                                     "form": draw(st.sampled_from(["lambda", "def"])), "tick": False}
+    a = draw(st.integers(0, 2))
+    inst = ["call", ["attr", ["name", "_model"], "Qi"], [["lit", a]], draw(st.sampled_from(["()", "[]"]))]
+    out = [["new_space", [], "Qi", None, None], ["new_space", [], "Qd", None, None],
+           ["set_ref", ["Qi"], "rq", ["v", draw(st.integers(1, 9))], None],
+           ["new_cells", ["Qi"], mk("ci", [], ["name", "k0"])],
+           ["set_formula", ["Qi"], {"params": [["p", None]], "form": "lambda",
+                                    "ret": {"base": None, "refs": {"k0": ["bin", "+", ["var", "p"], ["name", "rq"]]}}}],
+           ["new_cells", ["Qd"], mk("g", [], ["bin", "+", ["attr", inst, "k0"], ["lit", 100]])]]
+    if draw(st.integers(0, 3)) != 0:
+        out.append(["eval", ["Qi", [a]], "ci", [], None, "()"])       # the instance exists before its reader runs
+    out.append(["eval", ["Qd"], "g", [], None, "()"])
+    out.append(["set_ref", ["Qi"], "rq", ["v", draw(st.integers(20, 29))], None])
+    out.append(["eval", ["Qd"], "g", [], None, "()"])
     return out
 
 
